@@ -349,7 +349,7 @@ where
             "dispatching is only allowed for running simulations"
         );
 
-        let mut limit = RuntimeLimit::EventCount(self.num_events_dispatched() + n);
+        let mut limit = RuntimeLimit::EventCount(self.num_events_dispatched().saturating_add(n));
         mem::swap(&mut self.limit, &mut limit);
         self.dispatch_all();
         self.limit = limit;
